@@ -5,6 +5,10 @@ import ObiVerif.Lemmas.KmerCanon
 import ObiVerif.Lemmas.KmerWin
 import ObiVerif.Lemmas.DeBruijn
 import ObiVerif.Lemmas.DeBruijnGraph
+import ObiVerif.Lemmas.DeBruijnHeap
+import ObiVerif.Lemmas.DeBruijnCov
+import ObiVerif.Lemmas.DeBruijnOrder
+import ObiVerif.Lemmas.KmerIndex
 /-!
 # C19 — exact De Bruijn weights and heaviest path; strand-invariant canonical k-mers (property theorems)
 
@@ -336,5 +340,247 @@ example : ((makeGraph 3).push [97, 99, 103, 116, 99, 97, 103] 2).longestConsensu
 theorem roundtrip_counterexample :
     ((makeGraph 2).push [97, 99, 97] 1).hasCycle = some true ∧
     ((makeGraph 2).push [97, 99, 97] 1).longestConsensus 100 = .err := by decide
+
+/-! ## deepening round 2
+
+### the queue of `HaviestPath` is the transcription of `container/heap`
+
+`Model/DeBruijnHeap.lean` transcribes `up`, `down`, `heap.Push`, `heap.Pop` of the Go standard library over
+`UInt64Heap` (index loops on an array) and `heaviestPathH` / `longestConsensusH` run `HaviestPath` /
+`LongestConsensus(id, 0)` on it (this is what the driver executes against the real code).  `IsHeap a`: every cell
+is at least its parent `(i-1)/2`. -/
+
+/-- `heap.Push` and `heap.Pop` refine "insert in / extract a minimum of a multiset": both keep the heap order,
+`Push` adds exactly `x`, `Pop` removes exactly one element, which is a minimum. -/
+theorem heap_refines_multiset (a : Array Nat) (h : IsHeap a) :
+    (∀ x, IsHeap (heapPush a x) ∧ (heapPush a x).toList.Perm (x :: a.toList)) ∧
+    (heapPop a = none ↔ a.size = 0) ∧
+    (a.size ≠ 0 → ∃ m a', heapPop a = some (m, a') ∧ IsHeap a' ∧ a.toList.Perm (m :: a'.toList) ∧
+      ∀ y ∈ a.toList, m ≤ y) :=
+  ⟨fun x => ⟨heapPush_isHeap a x h, heapPush_perm a x⟩, heapPop_none a, fun hne => heapPop_spec a h hne⟩
+
+/-- the fuel of the two loops of the model never cuts the Go loop short -/
+theorem heap_fuel_adequate (a : Array Nat) :
+    (∀ j f, j < a.size → j + 1 ≤ f → heapUp f a j = heapUp (j + 1) a j) ∧
+    (∀ i n f, n ≤ f → heapDown f a i n = heapDown n a i n) :=
+  ⟨fun _ _ hj hf => heapUp_fuel hj hf, fun _ _ _ hf => heapDown_fuel hf⟩
+
+/-- non-vacuity / test (sample input): pushing 5, 3, 8, 1 on the empty heap then popping gives 1 and a heap -/
+example : heapPop (heapPush (heapPush (heapPush (heapPush #[] 5) 3) 8) 1) = some (1, #[3, 5, 8]) := by decide
+
+/-- **Refinement**: for every graph value and every fuel, `HaviestPath` / `LongestConsensus(id, 0)` on the binary
+heap return what the models on the sorted list return — all the theorems above speak about the transcription. -/
+theorem heaviest_transcription (g : Graph) (fuel : Nat) :
+    g.heaviestPathH fuel = g.heaviestPath fuel ∧ g.longestConsensusH fuel = g.longestConsensus fuel :=
+  ⟨heaviestPathH_eq g fuel, longestConsensusH_eq g fuel⟩
+
+/-- the property theorems, restated on the transcription -/
+theorem heaviestH_correct (g : Graph) (hwf : g.WF) (fuel : Nat) :
+    (g.heaviestPathH fuel = .nil ↔ g.Cyclic) ∧
+    (∀ p, g.heaviestPathH fuel = .path p →
+      (g.Walk p ∧ ∃ s t, p = s :: t ∧ s ∈ g.heads ∧ g.IsSource s) ∧
+      ((∀ x ∈ g.keys, 0 < g.weight x) → ∀ s t, g.IsSource s → g.Walk (s :: t) → g.pathWeight (s :: t) ≤ g.pathWeight p)) ∧
+    (¬ g.Cyclic → g.hpBound ≤ fuel → g.heaviestPathH fuel ≠ .fuel ∧
+      (g.nodes ≠ [] → (∀ x ∈ g.keys, 0 < g.weight x) → ∃ p, g.heaviestPathH fuel = .path p)) := by
+  rw [heaviestPathH_eq]
+  refine ⟨none_iff_cycle g fuel, fun p h => ⟨heaviest_is_walk g hwf fuel p h, fun hpos => heaviest_optimal g hwf hpos fuel p h⟩, ?_⟩
+  intro hc hf
+  have := heaviest_terminates g hwf hc fuel hf
+  exact ⟨this.1, this.2.2⟩
+
+/-! ### the map is a map: nothing depends on the order of its entries -/
+
+/-- **The graph, the heaviest path and the consensus are functions of the multiset of reads**: pushing the same
+reads (counts ≥ 1) in another order gives the same finite map word → weight (`Graph.Equiv`: same parameters, same
+`lookup`), the same answer of `HasCycle`, the same path and the same consensus — also on the transcription with
+the binary heap.  (`heaviestPath_equiv`, `longestConsensus_equiv` in `Lemmas/DeBruijnOrder.lean` say the same of
+any two association lists holding the same map with distinct keys: the iteration order of the Go map, which
+decides the order of `Heads()` and of the DFS roots, is not observable.) -/
+theorem consensus_of_multiset (k : Nat) (hk : 1 ≤ k) (h32 : k ≤ 32) (reads reads' : List (Bytes × Nat))
+    (hp : reads.Perm reads') (hc : ∀ r ∈ reads, 1 ≤ r.2) (fuel : Nat) :
+    let g := reads.foldl (fun g r => g.push r.1 r.2) (makeGraph k)
+    let g' := reads'.foldl (fun g r => g.push r.1 r.2) (makeGraph k)
+    g.Equiv g' ∧ g.hasCycle = g'.hasCycle ∧ g.heaviestPathH fuel = g'.heaviestPathH fuel ∧
+      g.longestConsensusH fuel = g'.longestConsensusH fuel := by
+  intro g g'
+  have e := pushes_perm_equiv k hk h32 reads reads' hp hc
+  refine ⟨e, e.hasCycle_eq, ?_, ?_⟩
+  · rw [heaviestPathH_eq, heaviestPathH_eq]; exact heaviestPath_of_multiset k hk h32 reads reads' hp hc fuel
+  · rw [longestConsensusH_eq, longestConsensusH_eq]; exact ObiVerif.DeBruijn.consensus_of_multiset k hk h32 reads reads' hp hc fuel
+
+/-- the hypotheses are satisfiable: two reads in both orders -/
+example : ([([97, 99, 103, 116, 99, 97, 103], 2), ([97, 99, 103, 116, 97], 1)] : List (Bytes × Nat)).Perm
+    [([97, 99, 103, 116, 97], 1), ([97, 99, 103, 116, 99, 97, 103], 2)] := List.Perm.swap _ _ _
+
+/-! ### `Len`, `MaxWeight`, `FilterMinWeight` -/
+
+/-- `MaxWeight` bounds every weight and, on a non-empty graph, is the weight of a node. -/
+theorem max_weight_spec (g : Graph) (hn : g.keys.Nodup) :
+    (∀ x, g.weight x ≤ g.maxWeight) ∧ (g.nodes ≠ [] → ∃ x ∈ g.keys, g.weight x = g.maxWeight) :=
+  ⟨maxWeight_ge g, maxWeight_attained g hn⟩
+
+/-- `FilterMinWeight(min)` keeps exactly the nodes of weight ≥ `min`, with their weights (nothing for a negative
+`min`: `uint(min)` is above every weight), and what is left is again a well-formed graph with distinct keys and
+positive weights: every theorem on `HaviestPath` applies to the filtered graph. -/
+theorem filter_min_weight_spec (g : Graph) (hn : g.keys.Nodup) (min : Int) :
+    (∀ x, x ∈ (g.filterMinWeight min).keys ↔ x ∈ g.keys ∧ 0 ≤ min ∧ min.toNat ≤ g.weight x) ∧
+    (∀ x, (g.filterMinWeight min).weight x = if 0 ≤ min ∧ min.toNat ≤ g.weight x then g.weight x else 0) ∧
+    (g.filterMinWeight min).keys.Nodup ∧ (g.WF → (g.filterMinWeight min).WF) ∧
+    ((∀ x ∈ g.keys, 0 < g.weight x) → ∀ x ∈ (g.filterMinWeight min).keys, 0 < (g.filterMinWeight min).weight x) :=
+  ⟨filterMinWeight_keys g hn min, filterMinWeight_weight g hn min, filterMinWeight_nodup g hn min,
+   fun h => filterMinWeight_wf g h min, filterMinWeight_pos g hn min⟩
+
+/-- the hypothesis holds for every graph built by `MakeDeBruijnGraph` and `Push` -/
+theorem keys_nodup_of_pushes (k : Nat) (reads : List (Bytes × Nat)) :
+    (reads.foldl (fun g r => g.push r.1 r.2) (makeGraph k)).keys.Nodup := pushes_nodup k reads
+
+/-- test (sample input): "acgtcag" x 5 and "acgacag" x 2, k = 3, filtered at 3: five nodes are left, the largest
+weight is 7 -/
+example : let g := (([([97, 99, 103, 116, 99, 97, 103], 5), ([97, 99, 103, 97, 99, 97, 103], 2)] : List (Bytes × Nat)).foldl
+      (fun g r => g.push r.1 r.2) (makeGraph 3)).filterMinWeight 3
+    g.len = 5 ∧ g.maxWeight = 7 := by decide
+
+/-! ### `LongestConsensus(id, min_cov)` with `min_cov > 0`
+
+`covThreshold mode m e` is `uint(float64(mode)*min_cov + 0.5)` for `min_cov = m × 2^e`, every float operation
+being rounded to 53 bits, ties to even (`Model/DeBruijnCov.lean`). -/
+
+/-- **When the float threshold is the exact rational one.**  For `min_cov = a / 2^s` (`s ≥ 1`) resp. an integer
+`a`, as long as `mode × a + 2^(s-1) < 2^53` resp. `2 × mode × a + 1 < 2^53`, no operation rounds and the threshold
+is `⌊mode × min_cov + 1/2⌋`; it is then at most the mode when `min_cov ≤ 1`. -/
+theorem cov_threshold_exact (mode a : Nat) (ha : 1 ≤ a) :
+    (∀ s : Nat, 1 ≤ s → mode * a + 2 ^ (s - 1) < 2 ^ 53 →
+      covThreshold mode a (-(s : Int)) = (mode * a + 2 ^ (s - 1)) / 2 ^ s ∧
+      (a ≤ 2 ^ s → covThreshold mode a (-(s : Int)) ≤ mode)) ∧
+    (2 * mode * a + 1 < 2 ^ 53 → covThreshold mode a 0 = mode * a) := by
+  refine ⟨fun s hs h => ?_, covThreshold_int mode a ha⟩
+  have e := covThreshold_dyadic mode a s ha hs h
+  exact ⟨e, fun hle => by rw [e]; exact dyadic_le_mode mode a s hs hle⟩
+
+/-- the hypotheses are satisfiable: mode 7, `min_cov` = 3/4 -> ⌊5.25 + 0.5⌋ = 5; a rounded case for
+comparison (test, sample input): `min_cov` = 0.1 (`0x1999999999999a × 2^-56`), mode 5 -> 1 -/
+example : covThreshold 7 3 (-2) = 5 ∧ covThreshold 5 0x1999999999999a (-56) = 1 := by decide
+
+/-- **The trimming**, complete characterisation (every path, every threshold): either every node is below the
+threshold — the slice expression `path[from:to]` then panics unless the path is empty —, or the path is
+`a ++ sp ++ b` with `a`, `b` the longest prefix and suffix of nodes below the threshold and `sp`, which begins and
+ends with a node reaching it, is what is kept. -/
+theorem trim_spec (w : Nat → Nat) (mp : Nat) (path : List Nat) :
+    ((∀ x ∈ path, w x < mp) ∧ trimPath w mp path = if path = [] then .path [] else .panic) ∨
+    (∃ a sp b, path = a ++ sp ++ b ∧ (∀ x ∈ a, w x < mp) ∧ (∀ x ∈ b, w x < mp) ∧
+      (∃ y t, sp = y :: t ∧ mp ≤ w y) ∧ (∃ t z, sp = t ++ [z] ∧ mp ≤ w z) ∧ trimPath w mp path = .path sp) :=
+  trimPath_cases w mp path
+
+/-- **`LongestConsensus` with trimming**: when `HaviestPath` returns `p` (non-empty graph) and `Mode` answers
+`md`, with `mp` the threshold: if some node of `p` reaches `mp`, the result is the decoding of the part `sp` of `p`
+between the first and the last node reaching `mp` — a walk of the graph, all of whose removed nodes are below
+`mp` —; otherwise the call panics (slice bounds out of range). -/
+theorem consensus_cov_spec (g : Graph) (hwf : g.WF) (hne : g.nodes ≠ []) (fuel m : Nat) (e : Int)
+    (pick : List Nat → Nat) (p : List Nat) (h : g.heaviestPathH fuel = .path p) :
+    let mp := covThreshold (pick (p.map g.weight)) m e
+    ((∃ x ∈ p, mp ≤ g.weight x) → ∃ a sp b, p = a ++ sp ++ b ∧ (∀ x ∈ a, g.weight x < mp) ∧
+      (∀ x ∈ b, g.weight x < mp) ∧ (∃ y t, sp = y :: t ∧ mp ≤ g.weight y) ∧ (∃ t z, sp = t ++ [z] ∧ mp ≤ g.weight z) ∧
+      g.Walk sp ∧
+      g.longestConsensusCov fuel m e pick = if (g.decodePath sp).isEmpty then .err else .seq (g.decodePath sp)) ∧
+    ((∀ x ∈ p, g.weight x < mp) → g.longestConsensusCov fuel m e pick = .panic) := by
+  intro mp
+  have hw : g.Walk p := by
+    rw [heaviestPathH_eq] at h
+    exact (heaviest_is_walk g hwf fuel p h).1
+  have hpne : p ≠ [] := by
+    rw [heaviestPathH_eq] at h
+    obtain ⟨_, s, t, e, _⟩ := heaviest_is_walk g hwf fuel p h
+    rw [e]; simp
+  have hl := longestConsensusCov_of_path g fuel m e pick p hne h
+  constructor
+  · rintro ⟨x, hx, hxw⟩
+    rcases trimPath_cases g.weight mp p with ⟨hall, _⟩ | ⟨a, sp, b, e1, ha, hb, hh, ht, etrim⟩
+    · have := hall x hx; omega
+    · refine ⟨a, sp, b, e1, ha, hb, hh, ht, ?_, ?_⟩
+      · rw [e1] at hw; exact Graph.Walk.infix a sp b hw
+      · rw [hl]; show (match trimPath g.weight mp p with | .panic => _ | .path sp => _) = _
+        rw [etrim]
+  · intro hall
+    rcases trimPath_cases g.weight mp p with ⟨_, etrim⟩ | ⟨a, sp, b, e1, _, _, ⟨y, t, e2, hy⟩, _, _⟩
+    · rw [hl]; show (match trimPath g.weight mp p with | .panic => _ | .path sp => _) = _
+      rw [etrim, if_neg hpne]
+    · have := hall y (by rw [e1, e2]; simp); omega
+
+/-- no panic for an exact `min_cov = a / 2^s ≤ 1` when `Mode` returns one of the weights of the path (it always
+does on a non-empty path: `mem_modeCands`).  Full statement: for every float `min_cov ≤ 1`; proved here under
+the no-rounding hypothesis of `cov_threshold_exact` (`_partial`: the monotonicity of the two roundings is not
+formalised). -/
+theorem consensus_cov_no_panic_partial (g : Graph) (hwf : g.WF) (hne : g.nodes ≠ []) (fuel : Nat)
+    (pick : List Nat → Nat) (p : List Nat) (h : g.heaviestPathH fuel = .path p)
+    (hpick : pick (p.map g.weight) ∈ p.map g.weight) (a s : Nat) (ha : 1 ≤ a) (hs : 1 ≤ s) (hle : a ≤ 2 ^ s)
+    (hx : pick (p.map g.weight) * a + 2 ^ (s - 1) < 2 ^ 53) :
+    g.longestConsensusCov fuel a (-(s : Int)) pick ≠ .panic := by
+  obtain ⟨x, hxp, hxw⟩ := List.mem_map.mp hpick
+  have hmp := ((cov_threshold_exact (pick (p.map g.weight)) a ha).1 s hs hx).2 hle
+  obtain ⟨a', sp, b, _, _, _, _, _, _, e⟩ :=
+    (consensus_cov_spec g hwf hne fuel a (-(s : Int)) pick p h).1 ⟨x, hxp, by rw [hxw]; exact hmp⟩
+  rw [e]; split <;> intro hh <;> cases hh
+
+/-- `obistats.Mode` returns one of `modeCands`: a most frequent value of the slice (0 on the empty slice); the
+list is never empty -/
+theorem mode_cands_spec (wp : List Nat) :
+    modeCands wp ≠ [] ∧ ∀ v, v ∈ modeCands wp ↔ (wp = [] ∧ v = 0) ∨ (v ∈ wp ∧ ∀ u ∈ wp, wp.count u ≤ wp.count v) :=
+  ⟨modeCands_ne_nil wp, mem_modeCands wp⟩
+
+/-- **Exact dependence on the iteration order of a Go map** (the real code agrees, corpus line
+`gc 3 3ff0000000000000 ? 616367746361:4 61636774:1`): reads "acgtca" x 4 and "acgt" x 1, k = 3, `min_cov` = 1.
+The path acg, cgt, gtc, tca has the weights 5, 5, 4, 4: `Mode` may return 5 or 4, and the consensus is "acgt" or
+"acgtca" accordingly.  With `min_cov` = 2 on a single read every node is below the threshold and the call panics. -/
+theorem mode_tie_counterexample :
+    let g := ([([97, 99, 103, 116, 99, 97], 4), ([97, 99, 103, 116], 1)] : List (Bytes × Nat)).foldl
+      (fun g r => g.push r.1 r.2) (makeGraph 3)
+    modeCands ([6, 27, 45, 52].map g.weight) = [4, 5] ∧
+    g.consensusCovCands 100 1 0 = [.seq [97, 99, 103, 116, 99, 97], .seq [97, 99, 103, 116]] ∧
+    ((makeGraph 3).push [97, 99, 103, 116, 99, 97, 103] 4).consensusCovCands 100 2 0 = [.panic] := by decide
+
+/-! ### the k-mer index proper: `Push`, `NewKmerMap`, `Query` -/
+
+/-- **The index, exactly** (no occurrence limit): after `NewKmerMap(refs, k, sparse, -1)` the list stored under
+the k-mer `x` is, for the references in order, the reference number repeated as many times as `x` occurs among its
+canonical k-mers (`refOcc`); in particular reference `j` occurs `count x (canonical k-mers of ref j)` times. -/
+theorem index_exact (m : KmerMap) (refs : List Bytes) (x j : Nat) :
+    idxGet (newIndex m (-1) refs) x = refOcc m x 0 refs ∧
+    (idxGet (newIndex m (-1) refs) x).count j =
+      if j < refs.length then (normalizedKmerSlice m (refs.getD j [])).count x else 0 := by
+  refine ⟨idxGet_newIndex m refs x, ?_⟩
+  rw [idxGet_newIndex, count_refOcc]
+  simp
+
+/-- **`Query`, exactly**, for a query sequence that is not in the index (no occurrence limit; `rank` = the
+order of the addresses, injective on the references): reference `j` is reported iff it shares at least one
+canonical k-mer occurrence with the query, and the number reported is `shared + 1`, where `shared` sums, over the
+canonical k-mers of the query with their repetitions, their multiplicity in reference `j` (the `+ 1` comes from
+`n = 1` followed by `n++` on the first element too).  The result does not depend on `rank`. -/
+theorem query_exact (m : KmerMap) (refs : List Bytes) (q : Bytes) (rank : Nat → Nat) (qid : Nat)
+    (hq : refs.length ≤ qid) (hinj : ∀ a b, a < refs.length → b < refs.length → rank a = rank b → a = b) (j : Nat) :
+    (kmQuery m (newIndex m (-1) refs) rank qid q).lookup j =
+      if j < refs.length ∧ 0 < shared m refs q j then some (shared m refs q j + 1) else none :=
+  kmQuery_fresh m refs q rank qid hq hinj j
+
+/-- **Strand invariance of the shared-k-mer statistic**: in the domain of `canon_exact`, the reverse complement
+of the query gets the same answer from the same index. -/
+theorem query_strand_invariant (W k0 : Nat) (sparse : Bool) (h1 : 1 ≤ effK k0 sparse) (h2 : 2 * effK k0 sparse ≤ W)
+    (refs : List Bytes) (q : Bytes) (rank : Nat → Nat) (qid : Nat) (hq : refs.length ≤ qid)
+    (hinj : ∀ a b, a < refs.length → b < refs.length → rank a = rank b → a = b) :
+    ∃ m, newKmerMap W k0 sparse = .ok m ∧ ∀ j,
+      (kmQuery m (newIndex m (-1) refs) rank qid (rcSeq q)).lookup j =
+      (kmQuery m (newIndex m (-1) refs) rank qid q).lookup j := by
+  obtain ⟨m, hm, _, hperm⟩ := canon_strand_invariant W k0 sparse h1 h2 q
+  refine ⟨m, hm, fun j => ?_⟩
+  rw [kmQuery_fresh m refs _ rank qid hq hinj, kmQuery_fresh m refs _ rank qid hq hinj, shared_perm m refs q (rcSeq q) j hperm]
+
+/-- test (sample input): references "acgtacgt", "acgtgg", query "acgt", k = 4 dense on 128-bit words: the query
+k-mer acgt occurs twice in reference 0 and once in reference 1: reported 3 and 2; the hypotheses of `query_exact`
+hold with the identity as rank -/
+example : (match newKmerMap 128 4 false with
+    | .ok m => kmQuery m (newIndex m (-1) [[97, 99, 103, 116, 97, 99, 103, 116], [97, 99, 103, 116, 103, 103]]) id 2
+        [97, 99, 103, 116]
+    | .error _ => []) = [(0, 3), (1, 2)] := by decide
+
 
 end ObiVerif.Props.C19
